@@ -428,8 +428,11 @@ Fixpoint subseqb (a b : list N) : bool :=
 Definition ok_acks (strict : bool) (h : hist) (s : nat) : bool :=
   let a := ackq (h_wire h) s in
   let c := accq (h_sends h) s in
-  if strict then prefixb a c && (h_closed h s || (length a =? length c)%nat)
-  else subseqb a c.
+  if strict then prefixb a c else subseqb a c.
+(* ... all of them, once the pipeline is quiescent, unless the session closed *)
+Definition ok_acks_final (strict : bool) (h : hist) (s : nat) : bool :=
+  negb strict || h_closed h s
+  || (length (ackq (h_wire h) s) =? length (accq (h_sends h) s))%nat.
 
 (* clause 3: outbound frames reach the transport in issue order: wire stamps
    (taken under the session write lock) increase along the transport order,
@@ -472,8 +475,13 @@ Definition complete_ok (h : hist) : bool :=
   forallb (fun x => negb (hs_acc x) ||
              existsb (fun e => Nat.eqb (hd_s e) (hs_s x) && (hd_q e =? hs_q x)) (h_disps h)) (h_sends h).
 
+Definition final_ok (strict : bool) (n : nat) (h : hist) : bool :=
+  complete_ok h && forallb (ok_acks_final strict h) (seq 0 n).
+
+(* [final]: the history ends in a quiescent state (the harness has waited for
+   the pipeline to finish) *)
 Definition monitor (strict : bool) (n : nat) (final : bool) (h : hist) : N :=
-  if safety_ok strict n h then (if final then (if complete_ok h then 0 else 1) else 0) else 1.
+  if safety_ok strict n h then (if final then (if final_ok strict n h then 0 else 1) else 0) else 1.
 
 (* ---- what the model predicts about an implementation run (acceptance) ------------------ *)
 
